@@ -205,6 +205,30 @@ class Layouts:
             return [Opaque(f"param:{t[1]}", Lin(0, {("len", t[1]): 1}))]
         if k == "bin" and t[1] == "+":
             return self._lay(t[2], depth) + self._lay(t[3], depth)
+        if k == "bin" and t[1] == "*":
+            # [0] * n / b"\x00" * n / n * [...]: the layout repeated a constant number of times
+            a, b = strip(t[2]), strip(t[3])
+            if is_const(a) and isinstance(a[1], int):
+                a, b = b, a
+            if is_const(b) and isinstance(b[1], int) and not isinstance(b[1], bool) and 0 <= b[1] <= 4096:
+                one = self._lay(a, depth)
+                if all(s_.n.is_const() for s_ in one):
+                    return one * b[1]
+            self._unknown(t, "(repetition)")
+        if k in ("list", "tuple"):
+            # a list of integers used as a byte buffer (later passed through bytes(...))
+            out = []
+            for it in t[1]:
+                it2 = strip(it)
+                if is_const(it2) and isinstance(it2[1], int) and not isinstance(it2[1], bool) and 0 <= it2[1] <= 255:
+                    out.append(Const(bytes([it2[1]])))
+                elif it2[0] == "enum" and 0 <= it2[3] <= 255:
+                    out.append(Const(bytes([it2[3]])))
+                elif it2[0] == "starred":
+                    self._unknown(t, "(starred element)")
+                else:
+                    out.append(Byte(it))
+            return out
         if k == "ite":
             a, b = self.layout(t[2], depth), self.layout(t[3], depth)
             if [s.key() for s in a] == [s.key() for s in b]:
